@@ -17,7 +17,7 @@ LEVEL_TEXT = ('Lean 4 theorems about the model of propagate_fft, for all fields,
               'the propagate_dft model (C02, proved against the Fraunhofer sum) at the reported wavelength, for every accepted output shape, '
               'with or without scratch (centred FFT = unitary dft2 with alpha = 1/S for both parities by the NumPy contracts; reported '
               'wavelength makes alpha = 1/S; dft2 of the padded grid = sum of per-field dft2 with offsets); the result with a sufficient '
-              'scratch of any size/content equals the result without; a buffer of exactly fft_shape is accepted, smaller ones, shapes with '
+              'scratch of any size/content equals the result without; a buffer of exactly fft_shape is accepted, smaller ones, shapes with (refuses_larger_shape_real / accepted_shape_fits_real at C/R) '
               'shape > fft_shape/oversample (float comparison, proved equivalent to shape·oversample > fft_shape) and wavefronts in which ANY field '
               'carries tilt are refused; scratch_shape is the grid at max(wavelength) and suffices for every smaller wavelength (scratch_shape_monotone_real: unconditional at R, '
               'the monotonicity of round-half-even is proved, roundEven_real_mono); metadata carried. '
